@@ -44,6 +44,13 @@ def run(tier):
     algebra.check_chain_rules(chk, F, tag="gen-chain")
     algebra.check_arith(chk, F, traits=("Mul", "Div"), neg=False, tag="gen-arith")
     sibling_agreement(chk, F)
+    # nesting: every generic body is verified with the inner type T abstract (T::re() an opaque projection), i.e. for T a dual number as
+    # well as for T = f64 — closed forms, the two-argument arctangent and the dual-with-float operator forms of the inner type
+    from . import c01, c08
+    algebra.check_closed_forms(chk, F, tag="nested-closed")
+    for ty in TYPES:
+        c01.check_atan2(chk, F, ty, tag="nested")
+        c08.check_type(chk, F, ty, thorough=False)
     vector_scalar_agreement(chk, F)
     nderiv(chk, F)
     recursion_items(chk, F)
